@@ -30,7 +30,7 @@ type c02Case struct {
 	RX      string `json:"rx"`      // "-" absent
 	Noise   string `json:"noise"`   // "", "padding", "udp"
 	Masq    int    `json:"masq"`    // 0 default 404, 1 custom echo handler, 2 bare-Write handler, 3 streaming handler
-	History int    `json:"history"` // 0 fresh, 1 after rejected auth, 2 after accepted auth, 3 after two masq requests, 4/5 another connection authenticated (closed / still open)
+	History int    `json:"history"` // 0 fresh, 1 after rejected auth, 2 after accepted auth, 3 after two masq requests, 4/5 another connection authenticated (closed / still open), 6 long-busy connection, 7/8 another connection authenticated with a credential since revoked (closed / still open)
 }
 
 var (
@@ -42,8 +42,20 @@ var (
 	c02Noises    = []string{"", "padding", "udp", "cookie5000", "cookie60000"}
 	c02Histories = []string{"fresh", "after-rejected-auth", "after-accepted-auth", "after-two-masq-requests",
 		"after-another-connection-authenticated-and-closed", "while-another-connection-is-authenticated",
-		"on-a-connection-busy-for-longer-than-any-timeout"}
+		"on-a-connection-busy-for-longer-than-any-timeout",
+		// histories 7 and 8: the authenticator's verdict is not a pure function of the auth string — the
+		// credential "good" is a one-time / since-revoked one: another connection was accepted with it,
+		// and the authenticator REJECTS it from then on; this connection presenting the same credential
+		// is an unauthenticated peer and must see the masquerade response only. (Added after the
+		// independently seeded change C02-9: the server cached accepted auth strings for 60 s and answered
+		// 233 from the cache without consulting the authenticator.)
+		"after-another-connection-was-accepted-with-a-credential-since-revoked-and-closed",
+		"while-another-connection-accepted-with-a-credential-since-revoked-is-open"}
 )
+
+// c02Revoked: histories in which the credential "good" was accepted once (on another connection)
+// and is rejected by the authenticator ever after.
+func c02Revoked(history int) bool { return history == 7 || history == 8 }
 
 // custom masquerade handler: echoes the request into status, headers (one of its own choosing,
 // one that looks like a Hysteria header) and body, so any deviation is visible.
@@ -172,6 +184,9 @@ func c02Accepted(c *c02Case) bool {
 	if c.Method != "POST" || c.Host != "hysteria" || path != "/auth" {
 		return false
 	}
+	if c02Revoked(c.History) {
+		return false // the only accepted credential was used up by the other connection
+	}
 	return c.History == 2 || c.Auth == "good"
 }
 
@@ -183,13 +198,18 @@ func c02Run(c *c02Case) (clause string) {
 		}
 		// histories 4 and 5: the state of OTHER connections of the same server (whatever the
 		// server keeps or recycles per connection must not carry over to a new peer)
+		// histories 7 and 8: the same, but the credential the other connection was accepted with is
+		// one the authenticator accepts once and rejects afterwards (rig.OnceCred)
 		var other *rigClient
-		if c.History == 4 || c.History == 5 {
+		if c02Revoked(c.History) {
+			r.OnceCred = r.GoodCred
+		}
+		if c.History == 4 || c.History == 5 || c02Revoked(c.History) {
 			other = r.dial("Z")
 			if resp, err := other.auth("good", 0); err != nil || resp.Status != protocol.StatusAuthOK {
 				e.Fail("history: accepted auth on the other connection got %v %v", resp, err)
 			}
-			if c.History == 4 {
+			if c.History == 4 || c.History == 7 {
 				other.close()
 				other = nil
 				e.WaitIdle()
